@@ -94,6 +94,8 @@ func execC16(c Case) string {
 			must(err)
 		case "msgbytes":
 			b = bchutil.NewBlockFromBlockAndBytes(msg, ser)
+		case "msgbytesempty": // the caller hands over an EMPTY but non-nil slice: nothing is cached, Bytes() computes
+			b = bchutil.NewBlockFromBlockAndBytes(msg, make([]byte, 0, 16))
 		case "msgbytesbad": // the caller hands over bytes that are NOT the serialisation of the message (a[4])
 			b = bchutil.NewBlockFromBlockAndBytes(msg, trailing)
 		case "raw":
@@ -329,10 +331,10 @@ func genC16(r *Rng, tier string, emit func(Case)) {
 			e("blk", "rawtoken", "raw", "1", "0", "0", hx(raw.Bytes()), "S,L,B,T0,H0,S,A,L")
 		}
 	}
-	ctors := []string{"msg", "bytes", "reader", "msgbytes"}
+	ctors := []string{"msg", "bytes", "reader", "msgbytes", "msgbytesempty"}
 	for i := 0; i < n; i++ {
 		ntx := r.Pick(0, 1, 2, 3, 5, 8, 40)
-		ctor := ctors[r.Intn(4)]
+		ctor := ctors[r.Intn(len(ctors))]
 		trailing := "-"
 		if (ctor == "bytes" || ctor == "reader") && r.Bool() {
 			trailing = hx(r.Bytes(1 + r.Intn(3)))
